@@ -65,6 +65,7 @@ def id_spaces(ctx, rule='C05-R1'):
         if not ok_shape:
             continue
         stride = lin[lv[0]]
+        ctx.sample({'generated layer ids': T.show(v, maxlen=300)})
         # K: cap on the number of components
         calls = [x for x in T.walk(sub[0]) if tag(x) == 'call' and x[1] == ('g', NCOMP)]
         cap = kwarg(calls[0], 'ncomp_max', 1) if calls else None
